@@ -1404,7 +1404,7 @@ pub fn oracle_prove_honest(c: &Case) -> Report {
 // forged openings at the proof level (sub-check of C04)
 // ------------------------------------------------------------------------------------------
 
-pub const RULE_FORGED_OPENING: &str = "honest MMCS opening circuits (arity-2 degree-4 Poseidon2 configurations) whose \
+pub const RULE_FORGED_OPENING: &str = "honest MMCS opening circuits (arity-2 and arity-4 degree-4 Poseidon2 configurations) whose \
 honest execution is proven; then ONE opened value (a public input) is changed in the Public table, the leaf-hash \
 (sponge) rows and everything else downstream are re-derived from it by the real executors, while the Merkle-mode \
 permutation rows and the slots they write keep their honest contents (the prover keeps the honest path to the \
